@@ -110,7 +110,9 @@ fn check_scn(scn: &Scn, rep: &mut RunReport) -> Result<Option<Fail>, String> {
         };
         let reads_at_build = w.source.total_reads();
         rep.bump(&format!("reads_at_build.{p:?}"), reads_at_build);
-        let templates = srcs.iter().map(|s| world::parse(&w.parser, s)).collect::<Result<Vec<_>, _>>()?;
+        // every other world parses its templates on a clone of the parser (shares the store)
+        let parse_on = if spec.hash_base % 2 == 0 { w.parser.clone() } else { w.parser.clone().clone() };
+        let templates = srcs.iter().map(|s| world::parse(&parse_on, s)).collect::<Result<Vec<_>, _>>()?;
         replicas.push(Replica { policy: p, world: w, templates });
     }
     let faulty_names: Vec<String> = spec
